@@ -737,7 +737,7 @@ class AnsiString:
             return width
 
         extend_formatting = True
-        match = re.search(r'^(?:(.?)([+-]?)<)?([0-9]*)$', string_format)
+        match = re.search(r'^(?:(.?)([+-]?)<)?([0-9]*)\Z', string_format, re.DOTALL)
         if match:
             # Left justify
             num = match.group(3)
@@ -754,7 +754,7 @@ class AnsiString:
                 self.apply_formatting(settings)
             return
 
-        match = re.search(r'^(.?)([+-]?)>([0-9]*)$', string_format)
+        match = re.search(r'^(.?)([+-]?)>([0-9]*)\Z', string_format, re.DOTALL)
         if match:
             # Right justify
             num = match.group(3)
@@ -771,7 +771,7 @@ class AnsiString:
                 self.apply_formatting(settings)
             return
 
-        match = re.search(r'^(.?)([+-]?)\^([0-9]*)$', string_format)
+        match = re.search(r'^(.?)([+-]?)\^([0-9]*)\Z', string_format, re.DOTALL)
         if match:
             # Center
             num = match.group(3)
@@ -788,11 +788,11 @@ class AnsiString:
                 self.apply_formatting(settings)
             return
 
-        match = re.search(r'^[<>\^]?[+-][0-9]*$', string_format)
+        match = re.search(r'^[<>\^]?[+-][0-9]*\Z', string_format, re.DOTALL)
         if match:
             raise ValueError('Sign not allowed in string format specifier')
 
-        match = re.search(r'^[<>\^]?[ ][0-9]*$', string_format)
+        match = re.search(r'^[<>\^]?[ ][0-9]*\Z', string_format, re.DOTALL)
         if match:
             raise ValueError('Space not allowed in string format specifier')
 
@@ -852,7 +852,7 @@ class AnsiString:
             obj = self.copy()
 
             # This will allow a colon to be a fill character based on the expected format
-            format_match = re.match(r'(^.?[-\+]?[<>\^]?[0-9]*)(:.*)?$', format_spec)
+            format_match = re.match(r'(^.?[-\+]?[<>\^]?[0-9]*)(:.*)?\Z', format_spec, re.DOTALL)
 
             if not format_match:
                 format_parts = [format_spec]
